@@ -1,7 +1,6 @@
 //! std.bytes part of the C09 tie: histories of bytes.* calls run as REPL inputs on one VM
 //! (`needs std.bytes`), compared with Model/Bytes.v (lines starting with `Q`) and with a reference
-//! map of byte arrays kept here (the direct oracle; lines `!ORACLE`).  Histories that contain
-//! f32 accessors are printed with prefix `N` (not modelled in Coq: oracle only).
+//! map of byte arrays kept here (the direct oracle; lines `!ORACLE`).  One history in eight also uses the f32 accessors.
 use super::*;
 
 #[derive(Clone, Debug)]
@@ -136,6 +135,41 @@ fn op_kind(op: &BOp) -> &'static str {
                BOp::Write { .. } => "write", BOp::WriteF { .. } => "write_f", BOp::Copy(..) => "copy", BOp::Fill(..) => "fill" }
 }
 
+
+/// inverse of `src` for replays: "bytes.write_u16_be(0, 1, 5); bytes.free(null); ..."
+fn parse_bops(text: &str) -> Vec<BOp> {
+    let mut out = Vec::new();
+    for t in text.split(';') {
+        let t = t.trim();
+        if t.is_empty() { continue; }
+        let t = t.strip_prefix("bytes.").unwrap_or(t);
+        let open = t.find('(').expect("(");
+        let name = &t[..open];
+        let args: Vec<&str> = t[open + 1..t.rfind(')').expect(")")].split(',').map(|a| a.trim()).collect();
+        let i = |k: usize| -> i64 { args[k].parse().expect("int argument") };
+        let op = match name {
+            "alloc" => BOp::Alloc(i(0)),
+            "free" => BOp::Free(match args[0] { "null" => A::Null, "1.5" => A::Flt, n => A::I(n.parse().expect("int")) }),
+            "size" => BOp::Size(i(0)),
+            "resize" => BOp::Resize(i(0), i(1)),
+            "copy" => BOp::Copy(i(0), i(1), i(2), i(3), i(4)),
+            "fill" => BOp::Fill(i(0), i(1), i(2), i(3)),
+            _ => {
+                let (rw, rest) = name.split_once('_').expect("accessor name");
+                let be = rest.ends_with("_be");
+                let ty = rest.trim_end_matches("_be");
+                let w = (ty[1..].parse::<u32>().expect("width") / 8) as u8;
+                let kind = match &ty[..1] { "u" => 0u8, "i" => 1, _ => 2 };
+                if rw == "read" { BOp::Read { w, kind, be, h: i(0), off: i(1) } }
+                else if kind == 2 { BOp::WriteF { w, be, h: i(0), off: i(1), lit: FLOATS.iter().find(|f| **f == args[2]).copied().expect("known float literal") } }
+                else { BOp::Write { w, sg: kind == 1, be, h: i(0), off: i(1), v: i(2) } }
+            }
+        };
+        out.push(op);
+    }
+    out
+}
+
 // ---------------------------------------------------------------- generator
 fn gen_bop(rng: &mut Rng, r: &RefB, f32ok: bool, dist: &mut Dist) -> BOp {
     let live: Vec<i64> = r.live.keys().cloned().collect();
@@ -223,11 +257,13 @@ fn gen_bop(rng: &mut Rng, r: &RefB, f32ok: bool, dist: &mut Dist) -> BOp {
 }
 
 #[cfg(vbxq_aelys_lang_verif)]
-pub fn main(seed: u64, hist: u64, maxlen: u64, _replay: Option<String>, dist: &mut Dist) {
+pub fn main(seed: u64, hist: u64, maxlen: u64, replay: Option<String>, dist: &mut Dist) {
     use aelys_runtime::Resource;
-    for hidx in 0..hist {
+    let fixed = replay.as_ref().map(|t| parse_bops(t));
+    for hidx in 0..(if fixed.is_some() { 1 } else { hist }) {
         let mut rng = Rng::new(seed.wrapping_mul(1_000_003).wrapping_add(hidx).wrapping_add(3 << 40));
         let len = match rng.below(4) { 0 => 1 + rng.below(8), 1 => 1 + rng.below(40), _ => 1 + rng.below(maxlen) } as usize;
+        let len = fixed.as_ref().map(|f| f.len()).unwrap_or(len);
         let opt = rng.below(4) as u32;
         let f32ok = hidx % 8 == 7;
         let mut vm = vmrun::new_vm(64 << 20);
@@ -238,7 +274,7 @@ pub fn main(seed: u64, hist: u64, maxlen: u64, _replay: Option<String>, dist: &m
         let mut obs: Vec<i128> = Vec::new();
         let mut findings: Vec<(usize, String, String)> = Vec::new();
         for i in 0..len {
-            let op = gen_bop(&mut rng, &r, f32ok, dist);
+            let op = match &fixed { Some(f) => f[i].clone(), None => gen_bop(&mut rng, &r, f32ok, dist) };
             let text = src(&op);
             let (c, bits, detail) = vmrun::input(&mut vm, &text, opt);
             if c == E_COMPILE || c == PANIC || (c != OK_VAL && c != E_TYPE) {
@@ -286,7 +322,9 @@ pub fn main(seed: u64, hist: u64, maxlen: u64, _replay: Option<String>, dist: &m
             ops.push(op);
         }
         let has_f32 = ops.iter().any(|o| matches!(o, BOp::WriteF { w: 4, .. } | BOp::Read { w: 4, kind: 2, .. }));
-        println!("{}QBytes [{}]\t{}", if has_f32 { "N" } else { "" }, ops.iter().map(coq).collect::<Vec<_>>().join("; "), obs.iter().map(|x| x.to_string()).collect::<Vec<_>>().join(" "));
+        if has_f32 { dist.hit("history-with-f32-accessors"); }
+        println!("{}QBytes [{}]\t{}\t{}", "", ops.iter().map(coq).collect::<Vec<_>>().join("; "), obs.iter().map(|x| x.to_string()).collect::<Vec<_>>().join(" "),
+                 ops.iter().map(src).collect::<Vec<_>>().join("; "));
         let first = findings.iter().map(|f| f.0).min();
         let mut seen = BTreeSet::new();
         for (i, sig, d) in findings {
